@@ -254,4 +254,200 @@ theorem parseCells_plain (ar : Arith) (o : Opts) (ds : List Desc) (msg : Message
     subst hpp
     simp only [List.map_cons, parseCells, hrt, ih, normField, hfn, hbt]
 
+
+/-! ### from cells back to messages, lines, files -/
+
+theorem findIdx_inl (fs : List Field) :
+    (fs.map (fun f => (Sum.inl f : Slot))).findIdx? pendingSlot = none := by
+  induction fs with
+  | nil => rfl
+  | cons f fs ih => simp [List.findIdx?_cons, ih, pendingSlot]
+
+theorem revertAll_inl (ar : Arith) (mesgNum : Nat) (fs : List Field) (fuel : Nat) :
+    revertAll ar mesgNum fuel (fs.map (fun f => (Sum.inl f : Slot))) = .ok (fs.map (fun f => (Sum.inl f : Slot))) := by
+  cases fuel with
+  | zero => rfl
+  | succ n => simp only [revertAll, findIdx_inl]
+
+theorem filterMap_inl (fs : List Field) :
+    (fs.map (fun f => (Sum.inl f : Slot))).filterMap slotDone = fs := by
+  induction fs with
+  | nil => rfl
+  | cons f fs ih => simp [ih, slotDone]
+
+theorem removeExpanded_none (mesgNum : Nat) (fs : List Field)
+    (h : ((fs.flatMap (targetsOf mesgNum)).filter (fs.map fieldNumOf).contains) = []) :
+    removeExpanded mesgNum fs = fs := by
+  simp only [removeExpanded, h, List.eraseDups_nil, List.foldl_nil]
+
+theorem fieldNumOf_norm (f : Field) : fieldNumOf (normField f) = fieldNumOf f := rfl
+
+/-- a message with a listed number below the manufacturer range, without developer fields, whose fields are all plain
+scalar fields (`PlainField`) none of which is a component target of another -/
+structure PlainMesg (o : Opts) (m : Message) : Prop where
+  low : m.num < mfgRangeMin
+  listed : ∃ s, mesgNames.lookup m.num = some s
+  nodev : m.devFields = []
+  nonempty : m.fields ≠ []
+  plain : ∀ f ∈ m.fields, PlainField o m f ∧ ∃ p, pfield m.num (fieldNumOf f) = some p ∧ p.bt = fieldBtOf f
+  clear : ((m.fields.flatMap (targetsOf m.num)).filter (m.fields.map fieldNumOf).contains) = []
+  notDesc : m.num ≠ mnFieldDescription
+
+def normMesg (m : Message) : Message := { m with fields := m.fields.map normField }
+
+theorem createMesg_plain (ar : Arith) (o : Opts) (ds : List Desc) (m : Message) (hdeg : o.degrees = false) (h : PlainMesg o m) :
+    createMesg ar ds m.num (m.fields.map (writeField o m)) = .ok (normMesg m) := by
+  have hp := parseCells_plain ar o ds m h.low hdeg m.fields h.plain
+  simp only [createMesg, hp]
+  have e : (m.fields.map fun f => (Sum.inl (normField f) : Slot)) = (m.fields.map normField).map (fun f => (Sum.inl f : Slot)) := by
+    simp [List.map_map]
+  rw [e, revertAll_inl]
+  simp only [filterMap_inl]
+  have hclear : (((m.fields.map normField).flatMap (targetsOf m.num)).filter ((m.fields.map normField).map fieldNumOf).contains) = [] := by
+    have e1 : (m.fields.map normField).map fieldNumOf = m.fields.map fieldNumOf := by simp [List.map_map, Function.comp_def, fieldNumOf_norm]
+    have e2 : (m.fields.map normField).flatMap (targetsOf m.num) = m.fields.flatMap (targetsOf m.num) := by
+      rw [List.flatMap_map]
+      congr 1
+    rw [e1, e2]; exact h.clear
+  rw [removeExpanded_none _ _ hclear]
+  simp [normMesg, h.nodev]
+
+theorem lookup_mem {α β : Type} [BEq α] [LawfulBEq α] : ∀ (l : List (α × β)) (a : α) (b : β), l.lookup a = some b → (a, b) ∈ l
+  | [], _, _, h => by simp at h
+  | (k, v) :: rest, a, b, h => by
+    simp only [List.lookup_cons] at h
+    split at h
+    · rename_i hk
+      have : a = k := by simpa using hk
+      cases h; subst this; exact List.mem_cons_self ..
+    · exact List.mem_cons_of_mem _ (lookup_mem rest a b h)
+
+theorem mesg_facts {n : Nat} {s : String} (h : mesgNames.lookup n = some s) (hn : n < mfgRangeMin) :
+    lookupMesgNum (txt s) = some n := by
+  have hm := lookup_mem _ _ _ h
+  have ht := mesgTableOK_true
+  simp only [mesgTableOK, List.all_eq_true, Bool.or_eq_true, decide_eq_true_eq, Bool.and_eq_true, beq_iff_eq] at ht
+  rcases ht (n, s) hm with h1 | h2
+  · simp only at h1; omega
+  · exact h2.1
+
+/-- what reading the line of a plain message does to the reader's state -/
+def stepState (s : RState) (m : Message) : RState :=
+  let s1 := if m.num == mnFileId then
+      (if s.seq != 0 then { s with done := s.cur.reverse :: s.done, cur := [], seq := s.seq + 1 } else { s with seq := s.seq + 1 })
+    else s
+  { s1 with cur := normMesg m :: s1.cur }
+
+theorem readLine_plain (ar : Arith) (o : Opts) (m : Message) (s : RState) (hdeg : o.degrees = false) (h : PlainMesg o m) :
+    readLine ar s (.data (mesgNameOf o m.num) (m.fields.map (writeField o m))) = .ok (stepState s m) := by
+  obtain ⟨nm, hnm⟩ := h.listed
+  have hname : mesgNameOf o m.num = txt nm := by
+    have : ¬ (m.num ≥ mfgRangeMin) := by have := h.low; omega
+    simp [mesgNameOf, this, hnm]
+  have hlk := mesg_facts hnm h.low
+  have hne : (m.fields.map (writeField o m)).isEmpty = false := by
+    cases hf : m.fields with
+    | nil => exact absurd hf h.nonempty
+    | cons a as => rfl
+  have hnorm : (normMesg m).fields.isEmpty = false := by
+    cases hf : m.fields with
+    | nil => exact absurd hf h.nonempty
+    | cons a as => simp [normMesg, hf]
+  have hnd : (m.num == mnFieldDescription) = false := by simpa using h.notDesc
+  simp only [readLine, hname, hlk, hne, Bool.false_eq_true, ↓reduceIte]
+  by_cases hfid : (m.num == mnFileId) = true
+  · by_cases hseq : (s.seq != 0) = true
+    · simp only [hfid, hseq, ↓reduceIte, createMesg_plain ar o _ m hdeg h, hnorm, Bool.false_and, Bool.false_eq_true, hnd, stepState]
+    · simp only [hfid, hseq, ↓reduceIte, createMesg_plain ar o _ m hdeg h, hnorm, Bool.false_and, Bool.false_eq_true, hnd, stepState]
+  · simp only [hfid, ↓reduceIte, createMesg_plain ar o _ m hdeg h, hnorm, Bool.false_and, Bool.false_eq_true, hnd, stepState]
+
+theorem writeMesg_plain (o : Opts) (ds : List Desc) (m : Message) (h : PlainMesg o m) :
+    writeMesg o ds m = (.data (mesgNameOf o m.num) (m.fields.map (writeField o m)), ds) := by
+  have hnd : (m.num == mnFieldDescription) = false := by simpa using h.notDesc
+  simp [writeMesg, hnd, h.nodev]
+
+theorem readLines_plain (ar : Arith) (o : Opts) (hdeg : o.degrees = false) :
+    ∀ (ms : List Message) (ds : List Desc) (s : RState), (∀ m ∈ ms, PlainMesg o m) →
+      readLines ar s (writeMesgs o ds ms) = .ok (ms.foldl stepState s)
+  | [], _, _, _ => rfl
+  | m :: ms, ds, s, h => by
+    have hm := h m (List.mem_cons_self ..)
+    simp only [writeMesgs, writeMesg_plain o ds m hm, readLines, readLine_plain ar o m s hdeg hm, List.foldl_cons]
+    exact readLines_plain ar o hdeg ms ds _ (fun x hx => h x (List.mem_cons_of_mem _ hx))
+
+theorem foldl_step_noFid : ∀ (rest : List Message) (s : RState), (∀ m ∈ rest, m.num ≠ mnFileId) →
+    rest.foldl stepState s = { s with cur := (rest.map normMesg).reverse ++ s.cur }
+  | [], s, _ => by simp
+  | m :: rest, s, h => by
+    have hm : (m.num == mnFileId) = false := by simpa using h m (List.mem_cons_self ..)
+    have hs : stepState s m = { s with cur := normMesg m :: s.cur } := by simp [stepState, hm]
+    rw [List.foldl_cons, hs, foldl_step_noFid rest _ (fun x hx => h x (List.mem_cons_of_mem _ hx))]
+    simp
+
+/-- every file starts with its only file_id -/
+def FileShape (f : List Message) : Prop :=
+  ∃ fid rest, f = fid :: rest ∧ fid.num = mnFileId ∧ ∀ m ∈ rest, m.num ≠ mnFileId
+
+/-- the sequences a reader state stands for -/
+def seqsOf (s : RState) : List (List Message) := (s.cur.reverse :: s.done).reverse
+
+theorem foldl_file (f : List Message) (hf : FileShape f) (s : RState) :
+    let s' := f.foldl stepState s
+    s'.seq = s.seq + 1 ∧ s'.ds = s.ds ∧
+    (s.seq = 0 → s.cur = [] → s.done = [] → seqsOf s' = [f.map normMesg]) ∧
+    (s.seq ≠ 0 → seqsOf s' = seqsOf s ++ [f.map normMesg]) := by
+  obtain ⟨fid, rest, rfl, hfid, hrest⟩ := hf
+  have hb : (fid.num == mnFileId) = true := by simp [hfid]
+  simp only [List.foldl_cons]
+  rw [foldl_step_noFid rest _ hrest]
+  by_cases hseq : s.seq = 0
+  · have : (s.seq != 0) = false := by simp [hseq]
+    simp only [stepState, hb, ↓reduceIte, this, Bool.false_eq_true]
+    refine ⟨trivial, trivial, ?_, fun h => absurd hseq h⟩
+    intro _ hc hd
+    simp [seqsOf, hc, hd]
+  · have : (s.seq != 0) = true := by simp [hseq]
+    simp only [stepState, hb, ↓reduceIte, this]
+    refine ⟨trivial, trivial, fun h => absurd h hseq, ?_⟩
+    intro _
+    simp [seqsOf]
+
+theorem foldl_files : ∀ (files : List (List Message)) (s : RState), (∀ f ∈ files, FileShape f) → s.seq ≠ 0 →
+    let s' := files.flatten.foldl stepState s
+    s'.seq = s.seq + files.length ∧ seqsOf s' = seqsOf s ++ files.map (·.map normMesg)
+  | [], s, _, _ => by simp
+  | f :: files, s, h, hs => by
+    have h1 := foldl_file f (h f (List.mem_cons_self ..)) s
+    simp only [List.flatten_cons, List.foldl_append]
+    have hne : (f.foldl stepState s).seq ≠ 0 := by rw [h1.1]; omega
+    have ih := foldl_files files (f.foldl stepState s) (fun x hx => h x (List.mem_cons_of_mem _ hx)) hne
+    refine ⟨?_, ?_⟩
+    · rw [ih.1, h1.1]; simp only [List.length_cons]; omega
+    · rw [ih.2, h1.2.2.2 hs]; simp
+
+/-- reading back the CSV of a chain of well-shaped files of plain messages: as many sequences as files, each the file's
+messages in their normal form -/
+theorem fromCsvPre_plain (ar : Arith) (o : Opts) (hdeg : o.degrees = false) (files : List (List Message))
+    (hne : files ≠ []) (hshape : ∀ f ∈ files, FileShape f) (hplain : ∀ f ∈ files, ∀ m ∈ f, PlainMesg o m) :
+    fromCsvPre ar (toCsv o files) = .ok ⟨files.map (·.map normMesg), files.length⟩ := by
+  have hall : ∀ m ∈ files.flatten, PlainMesg o m := by
+    intro m hm
+    obtain ⟨f, hf, hmf⟩ := List.mem_flatten.mp hm
+    exact hplain f hf m hmf
+  simp only [fromCsvPre, toCsv, readLines_plain ar o hdeg files.flatten [] {} hall]
+  cases files with
+  | nil => exact absurd rfl hne
+  | cons f rest =>
+    have h1 := foldl_file f (hshape f (List.mem_cons_self ..)) {}
+    simp only [List.flatten_cons, List.foldl_append]
+    have hne1 : (f.foldl stepState {}).seq ≠ 0 := by rw [h1.1]; decide
+    have h2 := foldl_files rest (f.foldl stepState {}) (fun x hx => hshape x (List.mem_cons_of_mem _ hx)) hne1
+    have hs1 := h1.2.2.1 rfl rfl rfl
+    have e1 : (rest.flatten.foldl stepState (f.foldl stepState {})).seq = (f :: rest).length := by
+      rw [h2.1, h1.1]; simp only [List.length_cons]; show 0 + 1 + rest.length = rest.length + 1; omega
+    have e2 : seqsOf (rest.flatten.foldl stepState (f.foldl stepState {})) = (f :: rest).map (·.map normMesg) := by
+      rw [h2.2, hs1]; simp
+    simp only [seqsOf] at e2
+    rw [e1, e2]
+
 end Fit.Csv
